@@ -776,6 +776,20 @@ func (e *SpecEnv) call(n *ast.CallExpr) Term {
 			e.stale("iface() of a value without a Go type")
 		}
 		return Term{S: app("mk-iface", fmt.Sprint(x.ctx.typeTag(a.T)), x.boxPayload(a)), Sort: "Iface", T: types.NewInterfaceType(nil, nil)}
+	case "decodes":
+		// decodes(b, s): slice b holds the bytes / runes of string s, as produced by the conversion []byte(s) / []rune(s)
+		argN(2)
+		a, str := e.expr(n.Args[0]), e.expr(n.Args[1])
+		if a.Sort == "Slice" && a.T != nil && str.Sort == "Str" {
+			el := a.T.Underlying().(*types.Slice).Elem()
+			es := x.ctx.sortOf(el)
+			rel := "decodes!" + sanitize(typeName(el))
+			x.ctx.declOnce(rel, fmt.Sprintf("(declare-fun %s ((Array Int %s) Int Str) Bool)", rel, es))
+			if v, ok := x.viewOf(e.st, a, el); ok {
+				return Term{S: app(rel, v.S, app("s-len", a.S), str.S), Sort: "Bool", T: boolT}
+			}
+		}
+		e.stale("decodes(slice, string)")
 	case "raw":
 		// raw(s): the whole backing array of slice s as a sequence indexed by absolute offset (s[k] = raw(s)[off(s)+k])
 		argN(1)
@@ -783,7 +797,7 @@ func (e *SpecEnv) call(n *ast.CallExpr) Term {
 		if a.Sort == "Slice" && a.T != nil {
 			el := a.T.Underlying().(*types.Slice).Elem()
 			es := x.ctx.sortOf(el)
-			m := x.elemMem(e.st, es)
+			m := x.elemMemT(e.st, el)
 			return Term{S: app("select", m.S, app("s-arr", a.S)), Sort: "(Array Int " + es + ")", T: types.NewArray(el, 0)}
 		}
 		e.stale("raw() of a non-slice")
@@ -821,6 +835,23 @@ func (e *SpecEnv) call(n *ast.CallExpr) Term {
 		a := e.expr(n.Args[0])
 		t := e.resolveType(n.Args[1])
 		return x.unboxPayload(app("i-val", a.S), t)
+	case "visited":
+		// visited(N, k): key k has been visited by the range-over-map loop with ordinal N
+		argN(2)
+		lit, ok := n.Args[0].(*ast.BasicLit)
+		if !ok {
+			e.stale("visited(N, k): N must be a loop ordinal")
+		}
+		v, ok := x.synth["range_v"+lit.Value]
+		if !ok {
+			e.stale("loop %s is not a range over a map", lit.Value)
+		}
+		vt, ok := e.st.vars[v]
+		if !ok {
+			e.stale("visited(%s, k) is not available here", lit.Value)
+		}
+		k := e.expr(n.Args[1])
+		return Term{S: app("select", vt.S, k.S), Sort: "Bool", T: boolT}
 	case "nonempty":
 		// nonempty(m): the map has at least one key
 		argN(1)
